@@ -41,6 +41,9 @@ enum Ty {
     Opt(Box<Ty>),
     Slice(Box<Ty>),
     Struct(String), // a struct of the file with named fields (iterator state)
+    Rec(String),    // a named-field struct used as a value (translated to a Coq Record)
+    Enum(String),   // a unit-like enum of the file
+    Res(Box<Ty>),   // Result<T, _>
     Text,   // &T where T: TextSource
     Source, // &D where D: BidiDataSource
     Other,
@@ -89,6 +92,14 @@ fn ty_of_type(t: &Type, g: &syn::Generics) -> Ty {
                 "bool" => Ty::Bool,
                 "Level" | "Self" => Ty::Level,
                 "BidiClass" => Ty::Class,
+                "Result" => {
+                    if let syn::PathArguments::AngleBracketed(a) = &seg.arguments {
+                        if let Some(syn::GenericArgument::Type(t)) = a.args.first() {
+                            return Ty::Res(Box::new(ty_of_type(t, g)));
+                        }
+                    }
+                    Ty::Other
+                }
                 "Option" => {
                     if let syn::PathArguments::AngleBracketed(a) = &seg.arguments {
                         if let Some(syn::GenericArgument::Type(t)) = a.args.first() {
@@ -97,6 +108,7 @@ fn ty_of_type(t: &Type, g: &syn::Generics) -> Ty {
                     }
                     Ty::Other
                 }
+                "LevelRunVec" | "Vec" | "SmallVec" => Ty::Slice(Box::new(Ty::Other)),
                 _ => generic_kind(g, &n).unwrap_or(Ty::Other),
             }
         }
@@ -224,8 +236,23 @@ impl<'a> Tr<'a> {
                 if n == "REPLACEMENT_CHARACTER" {
                     return Ty::Char;
                 }
+                for (en, vars) in &self.file.enums {
+                    if vars.contains(&n) && p.path.segments.len() >= 2 && p.path.segments[p.path.segments.len() - 2].ident == en.as_str() {
+                        return Ty::Enum(en.clone());
+                    }
+                }
                 Ty::Unknown
             }
+            Expr::Macro(m) if last_ident(&m.mac.path) == "matches" => Ty::Bool,
+            Expr::Macro(m) if last_ident(&m.mac.path) == "vec" => {
+                if let Ok(parsed) = syn::parse2::<VecArgs>(m.mac.tokens.clone()) {
+                    if let Some(e0) = parsed.elems.first() {
+                        return Ty::Slice(Box::new(self.infer(e0)));
+                    }
+                }
+                Ty::Slice(Box::new(Ty::Unknown))
+            }
+            Expr::Struct(st) if self.file.structs.contains_key(&last_ident(&st.path)) => Ty::Rec(last_ident(&st.path)),
             Expr::Cast(c) => match self.infer(&c.expr) {
                 Ty::U16 | Ty::Char => Ty::Char,
                 t => t,
@@ -234,10 +261,10 @@ impl<'a> Tr<'a> {
                 self.lookup_local(&local_name(e).unwrap()).unwrap()
             }
             Expr::Field(f) => {
-                if self.infer(&f.base) == Ty::Level {
-                    Ty::U8
-                } else {
-                    Ty::Unknown
+                match (self.infer(&f.base), &f.member) {
+                    (Ty::Level, _) => Ty::U8,
+                    (Ty::Rec(n), syn::Member::Named(fd)) => self.file.structs.get(&n).and_then(|fs| fs.iter().find(|x| fd == &x.0).map(|x| x.1.clone())).unwrap_or(Ty::Unknown),
+                    _ => Ty::Unknown,
                 }
             }
             Expr::Index(ix) => match self.infer(&ix.expr) {
@@ -269,7 +296,16 @@ impl<'a> Tr<'a> {
             Expr::MethodCall(m) => {
                 let name = m.method.to_string();
                 match name.as_str() {
-                    "is_none" | "is_some" => return Ty::Bool,
+                    "is_none" | "is_some" | "is_ok" | "is_err" => return Ty::Bool,
+                    "last" => {
+                        if let Ty::Slice(t) = self.infer(&m.receiver) {
+                            return Ty::Opt(t);
+                        }
+                    }
+                    "unwrap" | "expect" => match self.infer(&m.receiver) {
+                        Ty::Opt(t) | Ty::Res(t) => return *t,
+                        _ => {}
+                    },
                     "len_utf16" | "len_utf8" => return Ty::Word,
                     "into" => return self.infer(&m.receiver),
                     "next" => return Ty::Opt(Box::new(Ty::Other)),
@@ -389,6 +425,10 @@ impl<'a> Tr<'a> {
                         return Ok(coq_ident(&n));
                     }
                 }
+                if let (Ty::Rec(sn), syn::Member::Named(fd)) = (self.infer(&f.base), &f.member) {
+                    let base = self.expr(&f.base, b)?;
+                    return Ok(format!("({}_{} {})", sn, fd, base));
+                }
                 Err("named field access".into())
             }
             Expr::Unary(u) => match u.op {
@@ -451,7 +491,7 @@ impl<'a> Tr<'a> {
                     Some(e) => self.expr_h(e, &Ty::Word, b)?,
                     None => return Err("range without an end".into()),
                 };
-                Ok(format!("(rs_range {} {})", from, to))
+                Ok(format!("({}, {})", from, to))
             }
             Expr::Cast(c) => {
                 // widening casts between unsigned integers / u16 -> u32 / char -> u32 keep the value
@@ -459,6 +499,23 @@ impl<'a> Tr<'a> {
                     (Ty::U8, Ty::U8) | (Ty::U16, Ty::Word) | (Ty::U16, Ty::U16) | (Ty::Char, Ty::Word) | (Ty::Word, Ty::Word) | (Ty::Slice(_), _) => self.expr(&c.expr, b),
                     (a, t) => Err(format!("cast from {:?} to {:?}", a, t)),
                 }
+            }
+            Expr::Struct(st) if self.file.structs.contains_key(&last_ident(&st.path)) && st.rest.is_none() => {
+                let sn = last_ident(&st.path);
+                let mut fs = vec![];
+                for f in &st.fields {
+                    let n = match &f.member {
+                        syn::Member::Named(i) => i.to_string(),
+                        _ => return Err("unnamed field".into()),
+                    };
+                    let fty = self.file.structs[&sn].iter().find(|x| x.0 == n).map(|x| x.1.clone()).unwrap_or(Ty::Unknown);
+                    let v = self.expr_h(&f.expr, &fty, b)?;
+                    fs.push(format!("{}_{} := {}", sn, n, v));
+                }
+                if fs.len() != self.file.structs[&sn].len() {
+                    return Err("struct literal with missing fields".into());
+                }
+                Ok(format!("{{| {} |}}", fs.join("; ")))
             }
             Expr::Struct(st) => {
                 if last_ident(&st.path) != "BidiMatchedOpeningBracket" || st.rest.is_some() {
@@ -647,6 +704,8 @@ impl<'a> Tr<'a> {
                     (Ty::Class, BinOp::Eq(_)) => Ok(format!("(ceq {} {})", l, r)),
                     (Ty::Class, BinOp::Ne(_)) => Ok(format!("(negb (ceq {} {}))", l, r)),
                     (Ty::Bool, BinOp::Eq(_)) => Ok(format!("(Bool.eqb {} {})", l, r)),
+                    (Ty::Enum(en), BinOp::Eq(_)) => Ok(format!("({}_eqb {} {})", en, l, r)),
+                    (Ty::Enum(en), BinOp::Ne(_)) => Ok(format!("(negb ({}_eqb {} {}))", en, l, r)),
                     _ => Err("comparison on a type the translator cannot determine".into()),
                 }
             }
@@ -742,9 +801,10 @@ impl<'a> Tr<'a> {
                 });
             }
             "expect" | "unwrap" => {
+                let is_opt = matches!(rty, Ty::Opt(_));
                 let l = self.expr(&m.receiver, b)?;
                 let x = self.fresh("u");
-                b.push((x.clone(), format!("rs_expect {}", l)));
+                b.push((x.clone(), format!("{} {}", if is_opt { "rs_unwrap" } else { "rs_expect" }, l)));
                 return Ok(x);
             }
             "unwrap_or" if m.args.len() == 1 => {
@@ -779,6 +839,22 @@ impl<'a> Tr<'a> {
             "len_utf8" if m.args.is_empty() => {
                 let l = self.expr(&m.receiver, b)?;
                 return Ok(format!("(rs_len_utf8 {})", l));
+            }
+            "last" if m.args.is_empty() && matches!(rty, Ty::Slice(_)) => {
+                let l = self.expr(&m.receiver, b)?;
+                return Ok(format!("(rs_last {})", l));
+            }
+            "is_ok" if m.args.is_empty() => {
+                let l = self.expr(&m.receiver, b)?;
+                return Ok(format!("(match {} with ROk _ => true | RErr _ => false end)", l));
+            }
+            "is_err" if m.args.is_empty() => {
+                let l = self.expr(&m.receiver, b)?;
+                return Ok(format!("(match {} with ROk _ => false | RErr _ => true end)", l));
+            }
+            "len" if m.args.is_empty() && rty == Ty::Text => {
+                let l = self.expr(&m.receiver, b)?;
+                return Ok(format!("(rs_text_len ts {})", l));
             }
             "is_none" if m.args.is_empty() => {
                 let l = self.expr(&m.receiver, b)?;
@@ -884,6 +960,14 @@ impl<'a> Tr<'a> {
             }
             return Ok(format!("(match {} with {} => true | _ => false end)", s, p));
         }
+        if n == "vec" {
+            let parsed: VecArgs = syn::parse2(m.tokens.clone()).map_err(|e| format!("vec!: {}", e))?;
+            let mut xs = vec![];
+            for e in &parsed.elems {
+                xs.push(self.expr(e, b)?);
+            }
+            return Ok(format!("[{}]", xs.join("; ")));
+        }
         Err(format!("unsupported macro `{}!`", n))
     }
 
@@ -926,6 +1010,21 @@ impl<'a> Tr<'a> {
                 }
                 let (p, v) = self.pattern(&ts.elems[0])?;
                 Ok((format!("({} {})", ctor, p), v))
+            }
+            Pat::Struct(ps) if self.file.structs.contains_key(&last_ident(&ps.path)) => {
+                let sn = last_ident(&ps.path);
+                let mut fs = vec![];
+                let mut vs = vec![];
+                for f in &ps.fields {
+                    let n = match &f.member {
+                        syn::Member::Named(i) => i.to_string(),
+                        _ => return Err("unnamed field pattern".into()),
+                    };
+                    let (p, v) = self.pattern(&f.pat)?;
+                    fs.push(format!("{}_{} := {}", sn, n, p));
+                    vs.extend(v);
+                }
+                Ok((format!("{{| {} |}}", fs.join("; ")), vs))
             }
             Pat::Tuple(t) => {
                 let mut ps = vec![];
@@ -1241,6 +1340,17 @@ impl<'a> Tr<'a> {
             return Ok(format!("Ok (Go {})", self.tuple(fin)));
         }
         let (s, rest) = (&ss[0], &ss[1..]);
+        // the default feature set is what is translated: `#[cfg(feature = "smallvec")]` / "flame_it" statements are skipped
+        let attrs: &[syn::Attribute] = match s {
+            Stmt::Local(l) => &l.attrs,
+            Stmt::Macro(m) => &m.attrs,
+            Stmt::Expr(Expr::Block(b), _) => &b.attrs,
+            _ => &[],
+        };
+        match cfg_keeps(attrs) {
+            Some(false) => return self.flow(rest, fin),
+            _ => {}
+        }
         match s {
             Stmt::Local(l) => {
                 let (mutable, pat) = match strip_pat_type(&l.pat) {
@@ -1442,6 +1552,50 @@ impl<'a> Tr<'a> {
             Expr::ForLoop(fl) => self.flow_for(fl, rest, fin),
             Expr::Macro(m) => self.flow_macro(&m.mac, rest, fin),
             Expr::Tuple(t) if t.elems.is_empty() => self.flow(rest, fin),
+            Expr::MethodCall(m) if matches!(m.method.to_string().as_str(), "push" | "pop" | "clear") && local_name(&m.receiver).map(|v| self.is_mut_local(&v)).unwrap_or(false) => {
+                let v = coq_ident(&local_name(&m.receiver).unwrap());
+                let mut b = vec![];
+                let upd = match (m.method.to_string().as_str(), m.args.len()) {
+                    ("push", 1) => {
+                        let x = self.expr(&m.args[0], &mut b)?;
+                        format!("{} ++ [{}]", v, x)
+                    }
+                    ("pop", 0) => format!("removelast {}", v),
+                    ("clear", 0) => "[]".to_string(),
+                    _ => return Err("Vec method arity".into()),
+                };
+                let k = self.flow(rest, fin)?;
+                Ok(wrap(&b, &format!("let {} := {} in {}", v, upd, k)))
+            }
+            Expr::While(w) => {
+                // `while !matches!(v.pop(), PAT) {}`: pop until a popped value matches PAT (or the vector is empty)
+                let err = "only the idiom `while !matches!(v.pop(), PAT) {}` is supported";
+                if !w.body.stmts.is_empty() || w.label.is_some() {
+                    return Err(err.into());
+                }
+                let inner = match strip(&w.cond) {
+                    Expr::Unary(u) if matches!(u.op, UnOp::Not(_)) => match strip(&u.expr) {
+                        Expr::Macro(m) if last_ident(&m.mac.path) == "matches" => m.mac.clone(),
+                        _ => return Err(err.into()),
+                    },
+                    _ => return Err(err.into()),
+                };
+                let parsed: MatchesArgs = syn::parse2(inner.tokens.clone()).map_err(|e| format!("matches!: {}", e))?;
+                let v = match strip(&parsed.scrutinee) {
+                    Expr::MethodCall(m) if m.method == "pop" && m.args.is_empty() => local_name(&m.receiver).ok_or(err)?,
+                    _ => return Err(err.into()),
+                };
+                if !self.is_mut_local(&v) {
+                    return Err(err.into());
+                }
+                let (p, vars) = self.pattern(&parsed.pat)?;
+                if !vars.is_empty() {
+                    return Err("matches! with binders".into());
+                }
+                let cv = coq_ident(&v);
+                let k = self.flow(rest, fin)?;
+                Ok(format!("let {} := rs_pop_until (fun o => match o with {} => true | _ => false end) {} in {}", cv, p, cv, k))
+            }
             Expr::MethodCall(m) => {
                 let mut b = vec![];
                 self.mut_method_stmt(m, &mut b)?;
@@ -1592,7 +1746,14 @@ impl<'a> Tr<'a> {
             return Ok(format!("{}{}", r, k));
         }
         let mut b = vec![];
-        let coll = self.expr(&fl.expr, &mut b)?;
+        let coll = match strip(&fl.expr) {
+            Expr::Range(r) if matches!(r.limits, syn::RangeLimits::HalfOpen(_)) && r.start.is_some() && r.end.is_some() => {
+                let from = self.expr_h(r.start.as_ref().unwrap(), &Ty::Word, &mut b)?;
+                let to = self.expr_h(r.end.as_ref().unwrap(), &Ty::Word, &mut b)?;
+                format!("(rs_range {} {})", from, to)
+            }
+            _ => self.expr(&fl.expr, &mut b)?,
+        };
         let elem = match self.infer(strip_iter(&fl.expr)) {
             Ty::Slice(t) => *t,
             _ => Ty::Unknown,
@@ -1706,6 +1867,26 @@ impl<'a> Tr<'a> {
     }
 }
 
+/// `#[cfg(feature = "x")]` on a statement: Some(false) = not part of the default build (smallvec, flame_it, serde off),
+/// Some(true) = part of it (`not(feature = ...)` of those), None = no cfg attribute
+fn cfg_keeps(attrs: &[syn::Attribute]) -> Option<bool> {
+    for a in attrs {
+        if a.path().is_ident("cfg") {
+            let txt = a.meta.require_list().map(|l| l.tokens.to_string()).unwrap_or_default().replace(' ', "");
+            let off = ["feature=\"smallvec\"", "feature=\"flame_it\"", "feature=\"serde\""];
+            if let Some(inner) = txt.strip_prefix("not(").and_then(|x| x.strip_suffix(')')) {
+                if off.contains(&inner) {
+                    return Some(true);
+                }
+            }
+            if off.contains(&txt.as_str()) {
+                return Some(false);
+            }
+        }
+    }
+    None
+}
+
 fn ty_coq(t: &Ty) -> String {
     match t {
         Ty::U8 | Ty::Word | Ty::Level => "nat".into(),
@@ -1717,6 +1898,7 @@ fn ty_coq(t: &Ty) -> String {
         Ty::Slice(t) => format!("list ({})", ty_coq(t)),
         Ty::Text => "list N".into(),
         Ty::Source => "rs_data_source".into(),
+        Ty::Rec(n) | Ty::Enum(n) => n.clone(),
         _ => "_".into(),
     }
 }
@@ -1757,6 +1939,11 @@ impl<'ast> Visit<'ast> for Writes {
         syn::visit::visit_expr_binary(self, b);
     }
     fn visit_expr_method_call(&mut self, m: &'ast syn::ExprMethodCall) {
+        if matches!(m.method.to_string().as_str(), "push" | "pop" | "clear" | "truncate") {
+            if let Some(v) = local_name(&m.receiver) {
+                self.set.insert(v);
+            }
+        }
         if matches!(m.method.to_string().as_str(), "raise" | "raise_explicit" | "lower") {
             match strip(&m.receiver) {
                 Expr::Index(ix) => {
@@ -1772,6 +1959,14 @@ impl<'ast> Visit<'ast> for Writes {
             }
         }
         syn::visit::visit_expr_method_call(self, m);
+    }
+    fn visit_macro(&mut self, m: &'ast syn::Macro) {
+        // `matches!(v.pop(), ..)` mutates v
+        if last_ident(&m.path) == "matches" {
+            if let Ok(parsed) = syn::parse2::<MatchesArgs>(m.tokens.clone()) {
+                self.visit_expr(&parsed.scrutinee);
+            }
+        }
     }
     fn visit_expr_for_loop(&mut self, fl: &'ast syn::ExprForLoop) {
         // for x in &mut v[..] { *x = .. } writes v
@@ -1824,6 +2019,16 @@ impl syn::parse::Parse for MatchesArgs {
         let pat = Pat::parse_multi_with_leading_vert(input)?;
         let _ = input.parse::<Option<syn::Token![,]>>();
         Ok(MatchesArgs { scrutinee, pat })
+    }
+}
+
+struct VecArgs {
+    elems: Vec<Expr>,
+}
+impl syn::parse::Parse for VecArgs {
+    fn parse(input: syn::parse::ParseStream) -> syn::Result<Self> {
+        let p = syn::punctuated::Punctuated::<Expr, syn::Token![,]>::parse_terminated(input)?;
+        Ok(VecArgs { elems: p.into_iter().collect() })
     }
 }
 
@@ -1941,6 +2146,22 @@ fn collect(repo: &Path, rel: &str) -> R<FileCtx> {
             }
         }
     }
+    // field types that are themselves structs / enums of the file
+    let snames: Vec<String> = ctx.structs.keys().cloned().collect();
+    let enames: Vec<String> = f.items.iter().filter_map(|it| match it { Item::Enum(e) if e.variants.iter().all(|v| v.fields.is_empty()) && e.ident != "BidiClass" => Some(e.ident.to_string()), _ => None }).collect();
+    for it in &f.items {
+        if let Item::Struct(st) = it {
+            if let syn::Fields::Named(nf) = &st.fields {
+                let fields: Vec<(String, Ty)> = nf.named.iter().map(|fd| {
+                    let t = ty_of_type(&fd.ty, &st.generics);
+                    let tn = match &fd.ty { Type::Path(p) => last_ident(&p.path), _ => String::new() };
+                    let t = if t == Ty::Other && snames.contains(&tn) { Ty::Rec(tn) } else if t == Ty::Other && enames.contains(&tn) { Ty::Enum(tn) } else { t };
+                    (fd.ident.as_ref().unwrap().to_string(), t)
+                }).collect();
+                ctx.structs.insert(st.ident.to_string(), fields);
+            }
+        }
+    }
     for it in &f.items {
         match it {
             Item::Const(c) => {
@@ -2032,7 +2253,7 @@ fn fn_info(stem: &str, label: Option<&str>, self_ty: Ty, name: &str, sig: &syn::
     FnInfo { key: (label.map(|s| s.to_string()), name.to_string()), coq, rust, has_self, self_ty, mut_self, params, ret, item: block.clone() }
 }
 
-pub const FILES: [&str; 6] = ["src/level.rs", "src/char_data/mod.rs", "src/prepare.rs", "src/implicit.rs", "src/lib.rs", "src/utf16.rs"];
+pub const FILES: [&str; 7] = ["src/level.rs", "src/char_data/mod.rs", "src/prepare.rs", "src/implicit.rs", "src/lib.rs", "src/utf16.rs", "src/explicit.rs"];
 
 /// the functions the framework wants translated (others in these files are ignored silently):
 /// file stem, Self/trait label ("" = free function), function
@@ -2074,6 +2295,7 @@ pub const FUNCS: &[(&str, &str, &str)] = &[
     ("utf16", "Iterator_for_Utf16CharIndexIter", "next"),
     ("utf16", "Iterator_for_Utf16CharIter", "next"),
     ("utf16", "DoubleEndedIterator_for_Utf16CharIter", "next_back"),
+    ("explicit", "", "compute"),
 ];
 
 pub fn translate_all(repo: &Path, report: &mut Report) -> String {
@@ -2104,6 +2326,27 @@ pub fn translate_all(repo: &Path, report: &mut Report) -> String {
                     en,
                     vars.iter().map(|v| format!("{}_{}", en, v)).collect::<Vec<_>>().join(" | ")
                 ));
+                // derived PartialEq
+                if vars.len() == 1 {
+                    out.push_str(&format!("Definition {}_eqb (a b : {}) : bool := true.\n", en, en));
+                } else {
+                    out.push_str(&format!(
+                        "Definition {}_eqb (a b : {}) : bool := match a, b with {} | _, _ => false end.\n",
+                        en,
+                        en,
+                        vars.iter().map(|v| format!("{}_{}, {}_{} => true", en, v, en, v)).collect::<Vec<_>>().join(" | ")
+                    ));
+                }
+            }
+            // value structs (all fields of translatable type) become Records; iterator structs hold a slice and are not values
+            for (sn, fields) in &ctx.structs {
+                if fields.iter().all(|(_, t)| matches!(t, Ty::Level | Ty::U8 | Ty::Word | Ty::Bool | Ty::Class | Ty::Char | Ty::Enum(_) | Ty::Rec(_))) {
+                    out.push_str(&format!(
+                        "Record {} : Set := {{ {} }}.\n",
+                        sn,
+                        fields.iter().map(|(n, t)| format!("{}_{} : {}", sn, n, ty_coq(t))).collect::<Vec<_>>().join("; ")
+                    ));
+                }
             }
         }
         for (s, l, n) in FUNCS.iter().filter(|(s, _, _)| *s == ctx.stem) {
